@@ -51,6 +51,8 @@ pub struct KnownHit {
 pub struct CaseOut {
     pub evals: u64,
     pub nontrivial: Vec<u64>,
+    /// non-trivial cases that are distinct by construction (enumerations), counted rather than hashed
+    pub nontrivial_count: u64,
     pub violations: Vec<Violation>,
     pub known: Vec<KnownHit>,
     pub counters: BTreeMap<String, u64>,
@@ -200,6 +202,7 @@ impl Ctx {
     fn merge(&self, c: CaseOut) {
         let mut t = self.total.lock().unwrap();
         t.evals += c.evals;
+        t.nontrivial_count += c.nontrivial_count;
         {
             let mut d = self.distinct.lock().unwrap();
             for h in c.nontrivial {
@@ -320,7 +323,7 @@ impl Ctx {
     /// write evidence, print verdict lines, return the process exit code
     pub fn finish(&self) -> i32 {
         let t = self.total.lock().unwrap();
-        let distinct = self.distinct.lock().unwrap().len() as u64;
+        let distinct = self.distinct.lock().unwrap().len() as u64 + t.nontrivial_count;
         let known_file = load_known_findings();
         let mut exit = 0;
         let mut violations: Vec<&Violation> = t.violations.iter().collect();
